@@ -22,7 +22,8 @@ RULE = ("one run = GFA1 document with links over all orientation pairs / self-li
         "over M,I,D,P,=,X,H, scheduled delivery, complement-duplicate faults, paths in both directions; "
         "distinct = distinct (link set digest, op) pairs")
 PROBES = ["dup_complement", "dup_complement_before_path", "asym_cigar", "self_link", "hairpin",
-          "path_reversed_traversal", "path_before_link", "variant_second_edge", "algebra_checked"]
+          "path_reversed_traversal", "path_before_link", "variant_second_edge", "algebra_checked",
+          "algebra_after_edit"]
 
 
 def gen(streams, tier, i):
@@ -122,6 +123,59 @@ def algebra(g, st):
                                      "%r vs its complement: is_complement,is_eql,is_same = %r" % (pos, r1))
         if not (l.is_same(l) and l.is_eql(l)):
             raise core.Violation("equivalence-wrong", "%r is not the same as itself" % (pos,))
+        edited_algebra(l, pos, st)
+
+
+def edited_algebra(l, pos, st):
+    """The algebra holds for every link *value*: also for a link whose overlap was edited in place after a
+    complement had been taken (the documented way to change an alignment), and two complements taken from
+    one link are two values. Done on a stand-alone copy built from the text, so the Gfa is not touched."""
+    if pos[4] == "*":
+        return
+    o = core.call(gfapy.Line, "\t".join(["L"] + list(pos)), vlevel=l.vlevel)
+    if not o.ok:
+        return
+    x = o.value
+    c1 = core.call(x.complement)
+    c2 = core.call(x.complement)
+    if not (c1.ok and c2.ok) or not hasattr(x.overlap, "length_on_reference") or len(x.overlap) == 0:
+        return
+    st.count("probe.algebra_after_edit")
+    st.count("oracle.algebra_after_edit")
+    before = (ob.line_text(x), ob.line_text(c2.value))
+    ed = core.call(lambda: setattr(c1.value.overlap[0], "length", c1.value.overlap[0].length + 3))
+    if ed.ok and (ob.line_text(x), ob.line_text(c2.value)) != before:
+        raise core.Violation("complement-shares-state",
+                             "editing the overlap of one complement of %r changed %r into %r" %
+                             (pos, before, (ob.line_text(x), ob.line_text(c2.value))))
+    # in-place edit of the link's own overlap, then the algebra again on the new value
+    def edit():
+        x.overlap[-1].length += 2
+        if len(x.overlap) > 1:
+            x.overlap[0].code = {"I": "D", "D": "I"}.get(x.overlap[0].code, "I")
+    if not core.call(edit).ok:
+        return
+    npos = ob.line_text(x).split("\t")[1:6]
+    a, b = gtext.link_forms(npos)
+    c = core.call(x.complement)
+    if not c.ok:
+        raise core.Violation("complement-raised", "complement() of the edited %r raised %s" % (npos, c.excname), exc=c.excname)
+    cpos = tuple(ob.line_text(c.value).split("\t")[1:6])
+    if cpos != b:
+        raise core.Violation("complement-wrong-after-edit",
+                             "overlap of %r edited in place to %s: its complement is %r, expected %r" %
+                             (pos, npos[4], cpos, b))
+    cc = core.call(c.value.complement)
+    if not cc.ok or tuple(ob.line_text(cc.value).split("\t")[1:6]) != a:
+        raise core.Violation("complement-not-involution", "complement(complement(%r)) = %r (after an in-place edit)" %
+                             (npos, ob.line_text(cc.value) if cc.ok else cc.excname))
+    ov, cov = x.overlap, c.value.overlap
+    if (cov.length_on_reference(), cov.length_on_query()) != (ov.length_on_query(), ov.length_on_reference()):
+        raise core.Violation("complement-lengths", "complement of the edited %s does not exchange reference and "
+                             "query length" % npos[4])
+    for (p, q) in ((x, c.value), (c.value, x)):
+        if not (p.is_complement(q) and p.is_eql(q)):
+            raise core.Violation("equivalence-wrong", "edited %r vs its complement: not equivalent" % (npos,))
 
 
 def run(scn, st):
